@@ -7,14 +7,15 @@ from hypothesis import strategies as st
 from .. import gen, norm, states, walk
 from ..common import lib
 from ..core import require
-from ..spec import kinds
+from ..spec import kinds, relabeled
 
 ID = "C07"
 BUDGET = {"quick": (4, 400), "thorough": (16, 5000)}
 TECHNIQUE = "property-based differential testing (Hypothesis): a += b vs a + b, plus identity-graph aliasing detection"
 RULE = (
     "Generated: a tree spec, two compatible reachable states a and b (each from fills, optional merge / scaling / "
-    "copy; empty sides; disjoint and overlapping sparse key sets; b optionally an immutable JSON reload, which is what "
+    "copy; empty sides; disjoint and overlapping sparse key sets; b optionally built with its Label keys in the "
+    "opposite order; b optionally an immutable JSON reload, which is what "
     "fill.sparksql merges with `self += Factory.fromJson(...)`), and a continuation of further fills of a and of b.  "
     "Oracle: ref = a + b first; `a += b` returns a itself; a's document equals ref's bit for bit; b's document is "
     "unchanged; the sets of fillable-node / container identities of a and b are disjoint; after the continuation a "
@@ -39,7 +40,9 @@ def strategy(tier):
         rb = draw(gen.recipes(spec, max_rows=12, reload_ok=True, focus=focus))
         xa, _ = draw(gen.streams(spec, max_rows=5, focus=focus))
         xb, _ = draw(gen.streams(spec, max_rows=5, focus=focus))
-        return {"spec": spec, "a": ra, "b": rb, "more_a": [[r, w] for r, w in xa], "more_b": [[r, w] for r, w in xb]}
+        # b may come from a tree whose Label keys were given in the opposite order (same aggregator: children are matched by key)
+        b_relabel = draw(st.integers(0, 2)) == 0
+        return {"spec": spec, "a": ra, "b": rb, "more_a": [[r, w] for r, w in xa], "more_b": [[r, w] for r, w in xb], "b_relabel": b_relabel}
 
     return cases()
 
@@ -52,7 +55,8 @@ def check(case):
     lib()
     spec = case["spec"]
     a = states.realize(spec, case["a"])
-    b = states.realize(spec, case["b"])
+    spec_b = relabeled(spec) if case.get("b_relabel") else spec
+    b = states.realize(spec_b, case["b"])
     da0, db0 = doc(a), doc(b)
     ref = a + b
     dref = doc(ref)
@@ -74,7 +78,7 @@ def check(case):
             a.fill(row, w)
             ref.fill(row, w)
     if b_mutable:
-        twin = states.realize(spec, case["b"])
+        twin = states.realize(spec_b, case["b"])
         for row, w in case["more_b"]:
             b.fill(row, w)
             twin.fill(row, w)
